@@ -51,7 +51,8 @@ CASES = [
     ("wrong parameter list", "def f(a, b):\n    return a\n", spec_for(LF, "list[float]"), "differ from the spec"),
     ("unknown decorator", "@cache\ndef f(a):\n    return a\n", spec_for(LF, "list[float]"), "decorator"),
     ("keyword not in spec", "def f(a, **kwargs):\n    t = kwargs.get('tol', 1.0)\n    return t\n", spec_for(LF, "float"), "not in the spec"),
-    ("float / ratio mix", "def f(a, n):\n    return a[0] + n / 2\n", spec_for({"a": "list[float]", "n": "int"}, "float"), "mixing"),
+    ("float + int/int translates (the exact quotient is injected: oratio)", "def f(a, n):\n    return a[0] + n / 2\n",
+     spec_for({"a": "list[float]", "n": "int"}, "float"), None),
     ("range with a computed step", "def f(a, n):\n    s = 0\n    for i in range(0, 4, n):\n        s += i\n    return s\n",
      spec_for({"a": "list[float]", "n": "int"}, "int"), "step"),
     ("try body that updates a bound variable in several statements",
@@ -100,6 +101,30 @@ CASES = [
      "def f(a):\n    b = [x for x in a]\n    def g(x):\n        b.append(x)\n        return x\n    return g(a[0])\n",
      spec_for(LF, "float", locals={"g": {"params": {"x": "float"}, "returns": "float"}}), "enclosing"),
     ("sorted() of floats is not a primitive", "def f(a):\n    return sorted(a)\n", spec_for(LF, "list[float]"), "sorted() of"),
+    ("static flag: both variants translate",
+     "def f(a, flag=False):\n    if flag:\n        return a, 1.0\n    return a\n",
+     spec_for(LF, {"False": "list[float]", "True": "tuple[list[float],float]"}, static={"flag": [False, True]}), None),
+    ("static flag assigned in the body", "def f(a, flag=False):\n    flag = True\n    return a\n",
+     spec_for(LF, "list[float]", static={"flag": [False]}), "assigned in the body"),
+    ("math.sqrt is not understood", "import math\ndef f(a):\n    return math.sqrt(a[0])\n", spec_for(LF, "float"), "math.sqrt"),
+    ("math.pow with another base", "import math\ndef f(a, n):\n    return math.pow(2, n)\n",
+     spec_for({"a": "list[float]", "n": "int"}, "float"), "math.pow"),
+    ("math.pow(-1, n) translates", "import math\ndef f(a, n):\n    return math.pow(-1, n)\n",
+     spec_for({"a": "list[float]", "n": "int"}, "float"), None),
+    ("math without the import", "def f(a, n):\n    return math.pow(-1, n)\n",
+     spec_for({"a": "list[float]", "n": "int"}, "float"), "not a translated function"),
+    ("int() of a float", "def f(a):\n    return int(a[0])\n", spec_for(LF, "int"), "int() of"),
+    ("float(a) / float(b) stays a float division without the spec flag",
+     "def f(a, n):\n    d = float(n) / float(n + 1)\n    return int(d)\n", spec_for({"a": "list[float]", "n": "int"}, "int"), "int() of"),
+    ("float(a) / float(b) as an exact rational with the spec flag translates",
+     "def f(a, n):\n    d = float(n) / float(n + 1)\n    return int(d)\n",
+     spec_for({"a": "list[float]", "n": "int"}, "int", exact_int_quotients=True), None),
+    ("abstract callee never called", "from . import linalg\ndef f(a):\n    return a[0]\n",
+     spec_for(LF, "float", abstract_calls={"linalg.point_distance": {"param": "dist", "type": "fn(list[float],list[float])->float"}}),
+     "never called"),
+    ("abstract callee translates", "from . import linalg\ndef f(a):\n    return linalg.point_distance(a, a)\n",
+     spec_for(LF, "float", abstract_calls={"linalg.point_distance": {"param": "dist", "type": "fn(list[float],list[float])->float"}}),
+     None),
 ]
 
 
